@@ -212,6 +212,16 @@ fn main() {
         "values" => cmd_map(&args, |c| vec![algebra::value_case(c)]),
         "kinds" => cmd_map(&args, |c| vec![algebra::kind_case(c)]),
         "paths" => cmd_map(&args, |c| vec![algebra::path_case(c)]),
+        "ops" => {
+            let cases = read_ndjson(args.req("cases"));
+            std::panic::set_hook(Box::new(|_| {}));
+            sharded(cases, args.num("shards", 1), args.req("out"), |_, part, w| {
+                let progs = algebra::OpPrograms::new();
+                for case in part {
+                    writeln!(w, "{}", progs.pair(case)).unwrap();
+                }
+            });
+        }
         "nfn" => println!("{}", vrl::stdlib::all().len()),
         _ => {
             eprintln!("usage: vh <core|...> [--opt value]...");
